@@ -116,14 +116,25 @@ func GenC16(seed uint64) *Plan {
 		}
 		// identity columns supplied by the user in some runs (with the documented types)
 		for _, idc := range []string{"block_num", "tx_idx", "ig_name", "src_name"} {
+			// the column type as a user may spell it (other accepted spellings
+			// of the same kind of column)
+			spell := FieldType[idc]
+			if g.chance(40) {
+				switch idc {
+				case "block_num":
+					spell = g.pick([]string{"bigint", "int8", "numeric"})
+				case "tx_idx":
+					spell = g.pick([]string{"int4", "integer", "int8"})
+				}
+			}
 			switch r := g.R.IntN(100); {
 			case r < 25:
 				d.Block = append(d.Block, model.Field{Name: idc, Column: idc})
-				addCol(idc, FieldType[idc])
+				addCol(idc, spell)
 			case r < 37:
 				// only the column is declared; the field that writes it is
 				// one of the automatically required ones
-				addCol(idc, FieldType[idc])
+				addCol(idc, spell)
 			}
 		}
 		if g.chance(30) && len(d.Table.Columns) > 0 {
